@@ -53,8 +53,10 @@ type bindCase struct {
 }
 
 type bindGen struct {
-	r *rng
-	f *filler
+	r     *rng
+	f     *filler
+	twin  *bindCase
+	count int
 }
 
 // struct types that Prepare rejects (or that are odd): used now and then so that every statement form meets them
@@ -406,7 +408,28 @@ func (g *bindGen) argFor(name string, allowBulk bool) any {
 
 var oddArgs = []any{nil, 5, "str", struct{ X int }{}, map[string]any{"a": 1}, []int{1}, (*Person)(nil), 3.5, []any{1}, [][]int{}, &[]Person{{ID: 1}}, sqlair.M(nil), zoo2.Person{ID: 4, Name: "v9"}, zoo2.M{"k1": 1}, []zoo2.Person{{ID: 1}}, &sqlair.S{1, 2}}
 
+// next returns the next case.  Every eighth case is followed by a twin that differs from it only by
+// white space inside a string literal and inside a comment of the pass-through text.
 func (g *bindGen) next() bindCase {
+	if g.twin != nil {
+		c := *g.twin
+		g.twin = nil
+		return c
+	}
+	c := g.next1()
+	g.count++
+	if g.count%8 == 0 && !strings.Contains(c.query, "\x00") {
+		a := c
+		a.query = c.query + " AND note = 'it''s a b' /* keep  this */"
+		b := c
+		b.query = c.query + " AND note = 'it''s a  b' /* keep this */"
+		g.twin = &b
+		return a
+	}
+	return c
+}
+
+func (g *bindGen) next1() bindCase {
 	r := g.r
 	p := &stmtPlan{types: map[string]bool{}, ins: map[string]bool{}}
 	var b strings.Builder
